@@ -303,7 +303,13 @@ def ite(g, a, b):
     if isinstance(a, tuple) and isinstance(b, tuple):
         if len(a) != len(b):
             raise Unsupported('ite of tuples of different length %d/%d' % (len(a), len(b)))
-        return tuple(ite(g, x, y) for x, y in zip(a, b))
+        out = []
+        for x, y in zip(a, b):
+            try:
+                out.append(ite(g, x, y))
+            except Unsupported as e:
+                out.append(Poison(str(e)))      # only this component is unusable afterwards
+        return tuple(out)
     if isinstance(a, Enum) and isinstance(b, Enum):
         pay = {}
         for k in set(a.pay) | set(b.pay):
